@@ -38,7 +38,10 @@ def apply_moves(mesh, moves):
     log = []
     for mv in moves or []:
         if mv[0] == "translate":
-            mesh.Translate(*mv[1])
+            # the vector is given in units of the CURRENT size of the mesh (a translation by O(1) of a part of
+            # size 1e-6 would make |x|/h ~ 1e6 and the input itself ill-conditioned in double precision)
+            size = float(np.ptp(np.asarray(mesh.coord, dtype=float), axis=0).max())
+            mesh.Translate(*[size * float(v) for v in mv[1]])
         elif mv[0] == "rotate":
             mesh.Rotate(mv[1], mesh.center, tuple(mv[2]))
         elif mv[0] == "mirror":
@@ -215,6 +218,7 @@ def run_elastic(case, mesh):
     plain_s = list(s[:dim]) + [x * cm for x in s[dim:]]
     th = float(mat.thickness) if dim == 2 else 1.0
     res = {"Nn": int(mesh.Nn), "Ne": int(mesh.Ne), "dim": dim, "n_interior": int(interior.size), "n_boundary": int(bn.size),
+           "coord_conditioning": float(np.abs(X).max() / max(Lc, 1e-300)),
            "scale_u": float(np.abs(U).max()),
            "err_u_interior": float(np.abs(u[interior] - U[interior]).max()) if interior.size else 0.0,
            "err_u_all": float(np.abs(u[used] - U[used]).max()),
@@ -311,7 +315,7 @@ def run_thermal(case, mesh):
     X3 = np.asarray(mesh.coord, dtype=float)
     Lc = float(np.ptp(X3, axis=0).max())
     a3 = np.zeros(3)
-    a3[:dim] = rs.uniform(-1, 1, dim)
+    a3[:dim] = rs.uniform(0.5, 1.0, dim) * rs.choice([-1.0, 1.0], dim)   # variation O(1): no cancellation against the offset
     if case.get("embed") is not None:        # gradient lying in the embedded element plane / line
         a3 = np.asarray(case["embed"]["R"], dtype=float) @ a3
     # temperature varies by O(1) over the part whatever the length unit
@@ -327,6 +331,7 @@ def run_thermal(case, mesh):
     K = simu.Get_K_C_M_F()[0]
     r = K @ T
     return {"Nn": int(mesh.Nn), "Ne": int(mesh.Ne), "dim": dim, "n_interior": int(interior.size), "n_boundary": int(bn.size),
+            "coord_conditioning": float(np.abs(X3).max() / max(Lc, 1e-300)),
             "pre": pre,
             "scale_u": float(np.abs(T).max()),
             "err_u_interior": float(np.abs(t[interior] - T[interior]).max()) if interior.size else 0.0,
